@@ -193,7 +193,7 @@ func WorkerMain(propID, tier string, baseSeed uint64, start, stride int64, deadl
 		_ = enc.Encode(&RunResult{Begin: &b, Run: run})
 		out.Flush()
 		seed := runSeed(baseSeed, run)
-		plan := def.Gen(def, tier, seed, run)
+		plan := GenPlan(def, tier, seed, run)
 		res := def.RunPlan(def, plan, scratch)
 		if run < 3*stride && run/stride < 3 {
 			res.Sample, _ = json.Marshal(map[string]any{"plan": samplePlan(plan), "explored": res.Extra})
@@ -244,4 +244,14 @@ func ExecMain(planPath string, scratch string) int {
 	b, _ := json.Marshal(res)
 	fmt.Println(string(b))
 	return 0
+}
+
+// GenPlan is the plan of run number run: the property's generator, plus the decision (from
+// the run's seed alone) whether the log is driven through the typed facade.
+func GenPlan(def *PropDef, tier string, seed uint64, run int64) *Plan {
+	plan := def.Gen(def, tier, seed, run)
+	if (plan.Engine == "H" || plan.Engine == "S") && Mix(seed, 0x74797065)%8 == 0 {
+		plan.Cfg.Typed = true
+	}
+	return plan
 }
